@@ -53,7 +53,7 @@ def run(ctx):
     for req, m in sorted(timeouts, key=lambda t: (len(t[0][2]), t[0][2], t[0][0])):
         if confirmed >= CONFIRM_MAX or time.time() - t_conf > 1200:
             classes['timeout-not-rerun'] += 1; continue
-        again = runner.confirm_alone(req, timeout=120)
+        again = runner.confirm_alone(req, timeout=60)
         c = runner.outcome_class(again)
         if c != 'timeout':
             classes['timeout-not-confirmed'] += 1; classes[c] += 1
@@ -68,7 +68,21 @@ def run(ctx):
         items = tree_items[k:k + 2000]
         for req, (s, o), res in zip(tree_reqs[k:], items, common.spec_batch(['C12'], items)):
             if 'ILL' in res: bad(req, o, 'ill-typed:' + res['ILL'])
-    return dict(evaluations=len(reqs), distinct_nontrivial=len(nontrivial),
+    # measured generator quality: statement coverage of the implementation by a sample of the requests
+    line_cov = {}
+    try:
+        import subprocess, json as _json, os as _os, random as _random
+        rs = _random.Random(seed)
+        sample = [list(r) for r in (rs.sample(reqs, min(len(reqs), 4000 if tier == 'quick' else 30000)))]
+        p = subprocess.run(['/venv/bin/python', _os.path.join(_os.path.dirname(_os.path.abspath(canon.__file__)), 'covrun.py')],
+                           input=_json.dumps(sample).encode(), stdout=subprocess.PIPE, stderr=subprocess.DEVNULL, timeout=900)
+        d = _json.loads(p.stdout)
+        line_cov = {k: (v if k == '_total' else dict(percent=v['percent'], missing=v['missing'][:600])) for k, v in d.items()
+                    if k in ('_total', 'parser.py', 'tokenizer.py', 'subst.py', 'heredoc.py', 'ast.py')}
+        line_cov['sampled_requests'] = len(sample)
+    except Exception as e:
+        line_cov = {'error': repr(e)[:200]}
+    return dict(extra=dict(implementation_line_coverage=line_cov), evaluations=len(reqs), distinct_nontrivial=len(nontrivial),
                 rule='parse x option grid (strictmode x expansionlimit in {None,0,1,2} x convertpos x proceedonerror; full grid for short inputs and in the '
                      'thorough tier), parsesingle, split on: finding witnesses + corpus + every string of length <= %d over the 24-symbol alphabet + %d '
                      'seeded generated scripts with %d mutations each; non-trivial = distinct input that returns a tree' % (maxlen, nrandom, mutate),
